@@ -1562,9 +1562,12 @@ impl<T: Storage> Raft<T> {
         // `maybe_first_index`. Note that snapshot updates configuration
         // already, so as long as pending entries don't contain conf change
         // it's safe to start campaign.
+        // The same holds once that snapshot has been persisted but the application has
+        // not reported it applied yet: entries up to the snapshot index are compacted
+        // away (scanning them would fail) and are covered by the snapshot's configuration.
         let low = match self.raft_log.unstable.maybe_first_index() {
             Some(idx) => idx,
-            None => self.raft_log.applied + 1,
+            None => cmp::max(self.raft_log.applied + 1, self.raft_log.first_index()),
         };
         let high = self.raft_log.committed + 1;
         let ctx = GetEntriesContext(GetEntriesFor::TransferLeader);
